@@ -58,12 +58,14 @@ type leakCase struct {
 	// every k-th cycle the Close methods of the cycle's scoped (1) / transient (2) instances fail
 	CloseFailEvery int
 	CloseFailKinds int
+	// every cycle a second task closes the cycle's scope while the first creates a child on it
+	RaceParentClose bool
 }
 
 func (c *leakCase) Describe() map[string]any {
 	return map[string]any{"engine": "leak-sim", "cycles": c.N, "nesting": c.Nest, "creation_context": []string{"long-lived caller context", "nil ctx on long-lived parent scope", "background"}[c.ParentKind],
 		"initializer_fails_every": c.FailEvery, "failing_initializer": c.FailPos, "close_by_cancel_every_7th": c.UseWatcher, "double_close": c.Double,
-		"instance_close_fails_every": c.CloseFailEvery, "failing_close_kinds(1=scoped,2=transient)": c.CloseFailKinds}
+		"child_creation_races_with_close_of_the_scope": c.RaceParentClose, "instance_close_fails_every": c.CloseFailEvery, "failing_close_kinds(1=scoped,2=transient)": c.CloseFailKinds}
 }
 
 func decodeLeakCase(tier string, idx int, tape *Tape) *leakCase {
@@ -90,6 +92,12 @@ func decodeLeakCase(tier string, idx int, tape *Tape) *leakCase {
 	if tape.Choose(StFault, 2) == 1 {
 		c.CloseFailEvery = 1 + tape.Choose(StFault, 3)
 		c.CloseFailKinds = 1 + tape.Choose(StFault, 3)
+	}
+	if tape.Choose(StOps, 4) == 0 {
+		c.RaceParentClose = true
+		if c.N > 100 {
+			c.N = 100
+		}
 	}
 	return c
 }
@@ -142,7 +150,11 @@ func (e *leakEngine) exec(c *leakCase, tape *Tape) *RunOut {
 	var parentScope godi.Scope
 	var callerCtx *simContext
 	h := newH(&Config{}, tape) // only for the context table
-	sim := simrt.New(simrt.Config{Draw: func(stream, n int) int { return tape.Choose(StSched+stream, n) }, StepLimit: 4000000})
+	strategy := 0
+	if c.RaceParentClose {
+		strategy = 2 // PCT: the racing tasks run by priority, one change point is aimed at every race
+	}
+	sim := simrt.New(simrt.Config{Draw: func(stream, n int) int { return tape.Choose(StSched+stream, n) }, StepLimit: 4000000, Strategy: strategy, PCTDepth: 1})
 	add := func(rule, shape, f string, a ...any) {
 		r.vs = append(r.vs, Violation{Prop: "C14", Rule: rule, Shape: shape, Msg: fmt.Sprintf(f, a...)})
 	}
@@ -242,6 +254,30 @@ func (e *leakEngine) exec(c *leakCase, tape *Tape) *RunOut {
 			r.closeFailNow = c.CloseFailEvery > 0 && i%c.CloseFailEvery == 0
 			if child != nil && c.Nest == 1 {
 				child.Close()
+			}
+			if c.RaceParentClose && !byCancel {
+				// task B closes the scope while this task creates one more child on it: whichever
+				// way the overlap resolves, nothing of either scope may stay reachable afterwards
+				closedByB := false
+				sc := s
+				simrt.PCTBurst(1, 40+tape.Choose(StSched, 260))
+				simrt.Go(siteWait, func() {
+					sc.Close()
+					closedByB = true
+				})
+				if late, err := s.CreateScope(nil); err == nil {
+					r.weakScp = append(r.weakScp, weakScope(late))
+					late.Get(reflect.TypeOf((*leakTransient)(nil)))
+					late.Close()
+					out.Reach["raced-child-created"]++
+				} else if !errors.Is(err, godi.ErrScopeDisposed) && !errors.Is(err, errInitFail) {
+					add("C14.setup", "create-raced", "cycle %d: child creation racing the scope's Close failed with %v", i, err)
+				} else {
+					out.Reach["raced-child-refused"]++
+				}
+				simrt.Block(siteWait, func() bool { return closedByB })
+				late := 0
+				_ = late
 			}
 			if byCancel {
 				own.Cancel()
